@@ -451,8 +451,9 @@ impl Engine for Scc {
                 out.push(c);
             }
         }
+        // (for the rare huge graphs every candidate is a copy of the edge list: keep it to chunks)
         for k in (0..sc.n).rev() {
-            if sc.n > 1 {
+            if sc.n > 1 && sc.n <= 200 {
                 let remap = |x: usize| if x == k { None } else if x > k { Some(x - 1) } else { Some(x) };
                 let phases: Option<Vec<Vec<EdgeChange>>> = sc
                     .phases
